@@ -54,6 +54,17 @@ NSDrift(c, a, s) ==
          IF st.phase # "done" THEN {"L3_NetSimplexModelDidNotFinish"}
          ELSE If([i \in DOMAIN s.nodes |-> s.nodes[i][3]] = [i \in DOMAIN s.nodes |-> st.rank[i]], "L3_NetSimplexLayersAsModelled")
 
+\* the longest-path layerer: the layers are those of the memoised search (LongestPathOps), whatever the visit order
+LP == INSTANCE LongestPathOps
+LPApplies(c, a, s) == /\ c.p2 = "lp" /\ Len(a.nodes) >= 2 /\ Len(a.nodes) <= CBMaxNodes /\ Len(a.edges) <= CBMaxEdges
+                      /\ [i \in DOMAIN a.nodes |-> a.nodes[i][1]] = [i \in DOMAIN s.nodes |-> s.nodes[i][1]]
+LPDrift(c, a, s) ==
+    IF ~LPApplies(c, a, s) THEN {}
+    ELSE LET k == Len(a.nodes)
+             ies == [i \in DOMAIN a.edges |-> <<IndexOf(a, a.edges[i][1]), IndexOf(a, a.edges[i][2])>>]
+             lay == LP!LPLayers([p |-> ies, d |-> [i \in DOMAIN ies |-> 1], outl |-> a.outl], k, [n \in 1..k |-> n])
+         IN If([i \in DOMAIN s.nodes |-> s.nodes[i][3]] = lay, "L3_LongestPathLayersAsModelled")
+
 \* ---- layer 3 bound to the code: the phase-1 model predicts every edge (end points, reversed flag) exactly
 CB == INSTANCE CycleBreakOps
 CBApplies(c, a, s) == c.p1 \in {"greedy", "dfs"} /\ Len(a.nodes) <= CBMaxNodes /\ Len(a.edges) <= CBMaxEdges /\ Len(a.edges) >= 1
@@ -180,7 +191,7 @@ RODrift(c, a, s) ==
 Broken(c, a, s) ==
     CASE s.st = 0 -> (IF a.st \in {-1, 6} THEN {} ELSE {"StageOrder"}) \cup Contract0(c, s.comp, s)
       [] s.st = 1 -> (IF a.st = 0 THEN Contract1(c, a, s) \cup CBDrift(c, a, s) ELSE {"StageOrder"})
-      [] s.st = 2 -> (IF a.st = 1 THEN Contract2(c, a, s) \cup NSDrift(c, a, s) ELSE {"StageOrder"})
+      [] s.st = 2 -> (IF a.st = 1 THEN Contract2(c, a, s) \cup NSDrift(c, a, s) \cup LPDrift(c, a, s) ELSE {"StageOrder"})
       [] s.st = 3 -> (IF a.st = 2 THEN Contract3(c, a, s) \cup BLDrift(c, a, s) \cup WMDrift(c, a, s) ELSE {"StageOrder"})
       [] s.st = 4 -> (IF a.st = 3 THEN Contract4(c, a, s) \cup PODrift(c, a, s) \cup NPDrift(c, a, s) ELSE {"StageOrder"})
       [] s.st = 5 -> (IF a.st = 4 THEN Contract5(c, a, s) \cup RODrift(c, a, s) ELSE {"StageOrder"})
@@ -219,6 +230,7 @@ TraceStage ==
           /\ cnt' = [cnt EXCEPT !.stages = @ + 1, !.drift = @ + (IF B = {} THEN 0 ELSE 1),
                                 !.components = @ + (IF s.st = 0 THEN 1 ELSE 0),
                                 !.l3predictions = @ + (IF s.st = 2 /\ prev.st = 1 /\ NSApplies(call, prev, s) THEN 1 ELSE 0)
+                                                    + (IF s.st = 2 /\ prev.st = 1 /\ LPApplies(call, prev, s) THEN 1 ELSE 0)
                                                     + (IF s.st = 1 /\ prev.st = 0 /\ CBApplies(call, prev, s) THEN 1 ELSE 0)
                                                     + (IF s.st = 4 /\ prev.st = 3 /\ POApplies(call, prev, s) THEN 1 ELSE 0)
                                                     + (IF s.st = 4 /\ prev.st = 3 /\ NPApplies(call, prev, s) THEN 1 ELSE 0)
